@@ -14,7 +14,8 @@ TITLE = "Paged results yield every row exactly once, in order"
 LEVEL = "exploration"
 ENGINE = "sim"
 TECHNIQUE = ("exhaustive enumeration of page-size sequences x access patterns plus Hypothesis-generated histories (retried "
-             "pages, speculative attempts answered late, row factories) over the real Session/ResponseFuture/ResultSet on a "
+             "pages, speculative attempts answered late, row factories, programs interleaving iteration with manual "
+             "fetch_next_page) over the real Session/ResponseFuture/ResultSet on a "
              "deterministic simulated network; the fake server owns the rows and the paging states and is the reference")
 RULE = ("A case is a result of 1-6 pages with 0-4 rows each (empty first/middle/last pages included), globally unique row "
         "values and a unique opaque paging state per page; the fake nodes decode the paging state of every request.  Access "
@@ -26,13 +27,24 @@ RULE = ("A case is a result of 1-6 pages with 0-4 rows each (empty first/middle/
         "the other attempt's rows arriving late (before / during / never before the retry) and lets the application retry "
         "the fetch (fetch_next_page or start_fetching_next_page again): the retried request must carry the state of the last "
         "DELIVERED page.  "
+        "Mixed-access family (enumerated page sizes x 6 fixed programs, and generated programs of 1-8 operations): a program "
+        "of iter(n rows | until StopIteration; via next(), for+break, list() or all()) and fetch_next_page(with / without "
+        "reading current_rows) operations run on ONE result set -- iterate some rows, fetch the next page by hand, iterate "
+        "again, ...  Reference: iteration begun after a manual fetch (or on a new result) returns the rows of the current "
+        "page from its start and then every later page; an iter operation with no manual fetch since the previous one "
+        "continues the same iterator; current_rows after fetch_next_page is the server's next page; has_more_pages agrees "
+        "with the paging state of the current page; pages are requested lazily, in order, each once, with the right state.  "
+        "Non-trivial for this family: some rows were iterated, then a page was fetched manually, then iteration resumed.  "
         "Oracle: rows seen == concatenation of the pages consumed, every request for page k carries exactly the state "
         "returned with page k-1, pages are requested in order without gaps or repeats beyond the scheduled retries, nothing "
         "is requested after the page without paging state.  Non-trivial: at least 3 pages of which a non-final one is empty, "
         "or a retried / late-answered page.  Distinct by case digest.")
 ASSUMPTIONS = ["network, clock, executor and event loop are simulated (sim/); Cluster, Session, pools, connections, "
                "ResponseFuture and ResultSet are the real classes",
-               "paging states are non-empty opaque byte strings, as Cassandra produces them"]
+               "paging states are non-empty opaque byte strings, as Cassandra produces them",
+               "mixed-access programs never call iter() twice on the same current page (whether that rewinds the page is "
+               "unspecified) and never call fetch_next_page() when has_more_pages is false; rows of a page the application "
+               "skipped by fetching manually are not expected from iteration"]
 
 PATTERNS = ["iterate", "list", "all", "manual", "callbacks", "one", "index", "eq", "partial"]
 FULL = {"iterate", "list", "all", "manual", "callbacks", "index", "eq"}
@@ -130,6 +142,10 @@ def _run(case, ctx, sim):
     seen = []            # normalised rows handed to the application, in order
     info = {}
     k = case.get("k", 1)
+    prog = case.get("prog", [])
+    obs = []             # mixed pattern: what each operation of the program showed the application
+    if pattern == "mixed":
+        exp, need_mixed, mflags = _mixed_model(pages, prog)
 
     def client():
         rs = session.execute(stmt)
@@ -170,6 +186,8 @@ def _run(case, ctx, sim):
                 except StopIteration:
                     info["stopped"] = True
                     break
+        elif pattern == "mixed":
+            _mixed_client(rs, prog, obs, len(truth) + 8)
         else:
             raise ValueError(pattern)
 
@@ -231,6 +249,8 @@ def _run(case, ctx, sim):
         need = P
     elif pattern == "one":
         need = 1
+    elif pattern == "mixed":
+        need = need_mixed
     else:
         # partial: pages needed to deliver k rows (the driver may not read ahead)
         need, got = 0, 0
@@ -242,6 +262,8 @@ def _run(case, ctx, sim):
     if dedup != want_reqs:
         if len(dedup) > len(want_reqs) and dedup[:len(want_reqs)] == want_reqs:
             feat = "after-last-page" if need == P else "read-ahead"
+        elif pattern == "mixed" and dedup == want_reqs[:len(dedup)]:
+            feat = "page-never-requested"
         elif sorted(set(dedup)) != dedup:
             feat = "page-repeated"
         else:
@@ -285,6 +307,42 @@ def _run(case, ctx, sim):
         want = truth[:k]
         if seen != want:
             ctx.fail(["C18.rows", "partial"], "first %d rows seen %r, server sent %r" % (k, seen, want))
+    if pattern == "mixed":
+        manual_before = False
+        for j, (op, o, e) in enumerate(zip(prog, obs, exp)):
+            if op[0] == "fetch":
+                if o["more"] != e["more"]:
+                    ctx.fail(["C18.mixed", "has_more_pages", "got=%s" % o["more"]],
+                             "operation %d of %r: has_more_pages is %r, the server %s a paging state with the current page "
+                             "(sizes %r)" % (j, prog, o["more"], "sent" if e["more"] else "did not send", sizes))
+                    break
+                if o["rows"] != e["rows"]:
+                    ctx.fail(["C18.mixed", "current_rows-after-fetch_next_page"],
+                             "operation %d of %r: current_rows after fetch_next_page() is %r, the server's next page is %r "
+                             "(sizes %r)" % (j, prog, o["rows"], e["rows"], sizes))
+                    break
+                manual_before = manual_before or e["more"]
+                continue
+            if o["rows"] != e["rows"] or o["stopped"] != e["stopped"]:
+                g, w = o["rows"], e["rows"]
+                if g == w:
+                    feat = "stop-iteration"
+                elif len(set(g)) < len(g) or (set(g) - set(w)):
+                    feat = "duplicated-or-foreign"
+                elif sorted(g) == sorted(w):
+                    feat = "order"
+                else:
+                    feat = "lost"
+                ctx.fail(["C18.rows", feat, "pattern=mixed", "fresh-iter" if e["fresh"] else "continued-iter",
+                          "after-manual-fetch" if manual_before else "no-manual-fetch-before"],
+                         "operation %d (%r) of program %r returned rows %r%s; iteration from the %s must return %r%s "
+                         "(pages %r; observations so far %r)" % (
+                             j, op, prog, g, " then StopIteration" if o["stopped"] else "",
+                             "start of the current page" if e["fresh"] else "point where the live iterator stopped", w,
+                             " then StopIteration" if e["stopped"] else "", pages, obs[:j]))
+                break
+        if len(obs) != len(exp) and not ctx._failures:
+            ctx.fail(["C18.mixed", "program-incomplete"], "only %d of %d operations ran" % (len(obs), len(exp)))
 
     if slow & set(range(P)) and ctx._failures:
         # one root cause, many symptoms (rows repeated, rows lost, pages re-requested or skipped, index errors):
@@ -305,7 +363,118 @@ def _run(case, ctx, sim):
         ctx.label("retried-page")
     if slow:
         ctx.label("late-answered-page")
+    if pattern == "mixed":
+        ctx.label("mixed:ops=%d" % len(prog), *["mixed:" + f for f in sorted(mflags)])
+        if "iter-fetch-iter" not in mflags:
+            ctx.label("mixed:no-iter-fetch-iter")
+        ctx.nontrivial("iter-fetch-iter" in mflags)
+        return
     ctx.nontrivial((P >= 3 and empty_mid) or bool(flaky & set(range(P))) or bool(slow & set(range(P))))
+
+
+# --------------------------------------------------------------------------- iteration interleaved with manual fetches
+def _mixed_model(pages, prog):
+    """Reference for a program of ["iter", n, style] / ["fetch", peek] operations, written from the documented contract
+    only: fetch_next_page() makes the next page current; iter(rs) after it (or on a new result) iterates from the start of
+    the CURRENT page through all later pages, fetching a page only when a row beyond the current page is asked for; an
+    "iter" operation while an iterator is live (no manual fetch since it was made) CONTINUES that iterator with next() --
+    iter() is never called twice on the same current page, because what that does (rewind or not) is not specified.
+    n = -1 means "until StopIteration".  Returns (expected observations, pages needed, flags)."""
+    P = len(pages)
+    c, pos, exhausted = 0, None, False
+    exp, flags = [], set()
+    stage, consumed_here = 0, 0          # stage: 0 nothing, 1 iterated >= 1 row, 2 then fetched manually, 3 then iterated again
+    for op in prog:
+        if op[0] == "fetch":
+            more = c < P - 1
+            e = {"more": more, "rows": None}
+            if more:
+                if pos is not None:
+                    flags.add("stale-iter-exhausted" if pos >= len(pages[c]) else "stale-iter-partial")
+                c += 1
+                pos = None
+                if op[1]:
+                    e["rows"] = [tuple(r) for r in pages[c]]
+                if stage == 1:
+                    stage = 2
+            exp.append(e)
+            continue
+        n = op[1]
+        fresh = pos is None
+        if fresh:
+            pos = 0
+        got, stopped = [], False
+        while n < 0 or len(got) < n:
+            cur = [] if exhausted else pages[c]
+            if pos < len(cur):
+                got.append(tuple(cur[pos]))
+                pos += 1
+                continue
+            if c == P - 1:
+                exhausted = stopped = True
+                pos = 0
+                break
+            c += 1
+            pos = 0
+        exp.append({"rows": got, "stopped": stopped, "fresh": fresh})
+        if n != 0:
+            if stage == 2:
+                stage = 3
+            elif stage == 0 and got:
+                stage = 1
+    if stage == 3:
+        flags.add("iter-fetch-iter")
+    return exp, c + 1, flags
+
+
+def _mixed_client(rs, prog, obs, cap):
+    """Runs the program against the real ResultSet; every iter/cont/fetch records what the application saw."""
+    it, live = None, False
+    for op in prog:
+        if op[0] == "fetch":
+            more = bool(rs.has_more_pages)
+            ob = {"more": more, "rows": None}
+            if more:
+                rs.fetch_next_page()
+                live = False
+                if op[1]:
+                    ob["rows"] = [_norm(r) for r in rs.current_rows]
+            obs.append(ob)
+            continue
+        n, style = op[1], op[2]
+        fresh = not live
+        got, stopped = [], False
+        ob = {"rows": got, "stopped": False, "fresh": fresh}
+        obs.append(ob)
+        if fresh and style == "list" and n < 0:
+            got.extend(_norm(r) for r in list(rs))
+            it, live, stopped = rs, True, True
+        elif fresh and style == "all" and n < 0:
+            got.extend(_norm(r) for r in rs.all())
+            it, live, stopped = rs, True, True
+        elif fresh and style == "for" and n != 0:
+            stopped = True
+            for r in rs:
+                got.append(_norm(r))
+                if len(got) == n:
+                    stopped = False
+                    break
+                if len(got) > cap:
+                    raise RuntimeError("runaway: iteration returned more than %d rows" % cap)
+            it, live = rs, True
+        else:
+            if fresh:
+                it, live = iter(rs), True
+            while n < 0 or len(got) < n:
+                try:
+                    got.append(_norm(next(it)))
+                except StopIteration:
+                    stopped = True
+                    break
+                if len(got) > cap:
+                    raise RuntimeError("runaway: iteration returned more than %d rows" % cap)
+        ob["stopped"] = stopped
+
 
 
 # --------------------------------------------------------------------------- a failed page fetch, retried
@@ -524,6 +693,50 @@ def s_case(gran):
     })
 
 
+# --------------------------------------------------------------------------- mixed access programs
+MIXED_PROGRAMS = [
+    [["iter", 1, "next"], ["fetch", True], ["iter", -1, "for"]],
+    [["iter", 2, "for"], ["fetch", False], ["iter", -1, "list"]],
+    [["iter", 0, "next"], ["fetch", True], ["iter", -1, "all"]],
+    [["fetch", True], ["iter", 1, "for"], ["iter", 1, "next"], ["fetch", False], ["iter", -1, "next"]],
+    [["iter", 1, "next"], ["iter", 1, "next"], ["fetch", True], ["fetch", True], ["iter", 2, "for"], ["iter", -1, "next"]],
+    [["iter", 3, "for"], ["fetch", True], ["iter", 1, "next"], ["fetch", False], ["iter", -1, "for"]],
+]
+
+
+def _mixed_chunks(tier):
+    if tier == "quick":
+        return [{"prog": i, "max_len": 3, "max_size": 2, "extra_len4": True} for i in range(len(MIXED_PROGRAMS))]
+    return [{"prog": i, "max_len": 5, "max_size": 2} for i in range(len(MIXED_PROGRAMS))]
+
+
+def _mixed_cases(chunk):
+    seqs = list(_seqs(chunk["max_len"], chunk["max_size"]))
+    if chunk.get("extra_len4"):
+        seqs += [list(q) for q in itertools.product((0, 2), repeat=4)]
+    for seq in seqs:
+        yield {"warm": None, "sizes": seq, "pattern": "mixed", "prog": MIXED_PROGRAMS[chunk["prog"]], "factory": "named",
+               "flaky": [], "slow": [], "fetch_size": 2, "tape": [], "gran": "blocking"}
+
+
+def s_mixed_case(gran):
+    s_iter = st.tuples(st.just("iter"), st.sampled_from([-1, 0, 1, 1, 2, 2, 3, 4, 6]),
+                       st.sampled_from(["next", "for", "list", "all"])).map(list)
+    s_fetch = st.tuples(st.just("fetch"), st.booleans()).map(list)
+    return st.fixed_dictionaries({
+        "warm": st.sampled_from([None, 0, 3]),
+        "sizes": st.lists(st.sampled_from([0, 1, 2, 2, 3, 4]), min_size=1, max_size=6),
+        "pattern": st.just("mixed"),
+        "prog": st.lists(st.one_of(s_iter, s_iter, s_fetch), min_size=1, max_size=8),
+        "factory": st.sampled_from(["named", "tuple", "dict"]),
+        "flaky": st.lists(st.integers(0, 5), max_size=1),
+        "slow": st.just([]),
+        "fetch_size": st.sampled_from([1, 2, 5000]),
+        "tape": st.lists(st.integers(0, 3), max_size=30 if gran == "locks" else 6),
+        "gran": st.just(gran),
+    })
+
+
 def parts(tier):
     return [
         EnumPart("sequences", _chunks(tier), _cases, interpret),
@@ -534,4 +747,7 @@ def parts(tier):
         EnumPart("failed-fetch", _retry_chunks(tier), _retry_cases, interpret_retry),
         hyp_part("failed-fetch-generated", lambda: s_retry_case("blocking" if tier == "quick" else "locks"), interpret_retry,
                  tier, quick=60, thorough=600, quick_shards=1, thorough_shards=4),
+        EnumPart("mixed-sequences", _mixed_chunks(tier), _mixed_cases, interpret),
+        hyp_part("mixed-generated", lambda: s_mixed_case("blocking" if tier == "quick" else "locks"), interpret,
+                 tier, quick=150, thorough=2000, quick_shards=1, thorough_shards=8),
     ]
